@@ -256,6 +256,16 @@ def gen_stacks(rng, n, unit, bb):
     elif k < 0.8:
         v = [rng.choice([bb, bb + 1, 2 * bb, 2 * bb - 1, 3 * bb, 5 * bb,
                          max(1, bb // 2)]) for _ in range(n)]
+    elif k < 0.88:
+        # a ladder: stacks a fraction of a raise apart, so successive
+        # all-ins are short (incomplete) raises over one another; one or
+        # two deep stacks keep the betting open behind them
+        base = rng.randint(1, 6) * bb
+        step = rng.randint(1, max(1, bb))
+        v = [base + i * step for i in range(n)]
+        rng.shuffle(v)
+        for i in rng.sample(range(n), min(n, rng.choice([1, 2]))):
+            v[i] = rng.randint(20, 100) * bb
     else:
         v = [rng.randint(10, 200) * bb for _ in range(n)]
     return [x * unit for x in v]
